@@ -176,12 +176,31 @@ class Cfg(object):
         self.group, self.acn, self.acs, self.reset, self.maxatt, self.buf, self.maxbuf, self.gen, self.cap, self.fuel = \
             group, acn, acs, reset, maxatt, buf, maxbuf, gen, cap, fuel
 
+    def cap_value(self):
+        """the index at which the delay sequence of this profile reaches its maximum, computed from the implementation's
+        own REQUEST_RETRY_FACTOR (the property does not fix the factor: it is a parameter of the model)"""
+        import afkak.consumer as AC
+        init, mx = self.DELAYS[self.cap]
+        d, k = float(init), 0
+        while d < float(mx) and k < 500:
+            d = min(d * AC.REQUEST_RETRY_FACTOR, float(mx))
+            k += 1
+        return k
+
     def line(self):
-        return [getattr(self, f) for f in self.FIELDS]
+        return [self.cap_value() if f == "cap" else getattr(self, f) for f in self.FIELDS]
 
     @classmethod
     def from_line(cls, l):
-        return cls(*l[:len(cls.FIELDS)])
+        c = cls(*l[:len(cls.FIELDS)])
+        if c.cap not in cls.DELAYS or c.cap_value() != l[cls.FIELDS.index("cap")]:
+            for key in cls.DELAYS:           # the line carries the computed cap: find the profile it came from
+                c.cap = key
+                if c.cap_value() == l[cls.FIELDS.index("cap")]:
+                    break
+            else:
+                c.cap = 7
+        return c
 
     def valid(self):
         if not self.group and (self.acn or self.acs):
